@@ -2,7 +2,7 @@
    evaluated on the IMPLEMENTATION's pre-state, operation, outcome and post-state.
    A failure is a concrete history on which the real code violates the clause. *)
 From SaoVerif Require Import Base.Prelude Base.Ints Base.Dec Model.Did Model.Types Model.Monad Model.Bank Model.Select
-     Model.Node Model.Storage Model.Sao Model.Hooks Model.App Model.Spec.
+     Model.Node Model.Storage Model.Sao Model.Hooks Model.App Model.Spec Model.Monitors.
 From RecordUpdate Require Import RecordUpdate.
 Import RecordSetNotations.
 
@@ -88,6 +88,10 @@ Definition mon_mint_cap (n : Z) (pre post : State) : bool :=
   | None => supply post =? supply pre
   end.
 
+(** C06/D13: what the node escrow holds beyond recorded collateral (net of debt) and unclaimed rewards *)
+Definition node_margin (s : State) : Z := balance s (macc NODE) - owed_node_collateral s - owed_node_rewards s.
+Definition total_debt (s : State) : Z := sumz (sitems (debts s)) snd.
+
 Definition op_monitors (cx : Ctx) (pre : State) (op : Op) (accepted : bool) (post : State) : list (string * bool) :=
   (* frames that hold for every operation, accepted or not *)
   [ ("frame.models", touches_models op || models_same pre post);
@@ -102,6 +106,10 @@ Definition op_monitors (cx : Ctx) (pre : State) (op : Op) (accepted : bool) (pos
     ("rollback.clean", mon_rollback_clean pre post);
     ("rollback.refund_exact", match op with OCancel _ _ _ | OEndBlock _ => mon_rollback_refund pre post | _ => true end);
     ("mint.within_age_cap", match op with OBeginBlock => mon_mint_cap 1 pre post | _ => true end);
+    (* defect D13: a claim repays recorded debt out of storage income that never reaches the node escrow *)
+    ("solv.debt_repaid_from_income", match op with
+                                     | OClaimReward _ => negb ((total_debt post <? total_debt pre) && (node_margin post <? node_margin pre))
+                                     | _ => true end);
     ("frame.rejected_unchanged", negb (is_tx op) || accepted ||
          value_eqb (VL (map snd (enc_state (pre <| pg := pg post |>)))) (VL (map snd (enc_state post)))) ] ++
   match op with
@@ -112,7 +120,14 @@ Definition op_monitors (cx : Ctx) (pre : State) (op : Op) (accepted : bool) (pos
         (* C16: an accepted update names the model's latest committed version as its base *)
         ("ver.base_is_latest", negb accepted ||
            match metas pre !! st_data m with
-           | Some em => String.eqb (fst (split_commit (st_commit m))) (m_commit em)
+           | Some em => String.eqb (fst (split_commit (st_commit m))) (m_commit em) ||
+                        str_contains (m_commit em) (fst (split_commit (st_commit m)))   (* that case: next clause *)
+           | None => true end);
+        (* defect D16: the base is only tested to be a SUBSTRING of the latest commit id *)
+        ("ver.base_not_proper_substring", negb accepted ||
+           match metas pre !! st_data m with
+           | Some em => String.eqb (fst (split_commit (st_commit m))) (m_commit em) ||
+                        negb (str_contains (m_commit em) (fst (split_commit (st_commit m))))
            | None => true end);
         ("authz.payer", negb accepted ||
            forallb (fun a =>
@@ -165,6 +180,11 @@ Definition op_monitors (cx : Ctx) (pre : State) (op : Op) (accepted : bool) (pos
       [ ("authz.faults", negb accepted ||
            match nodes pre !! c with
            | Some n => if String.eqb c p then negb (Z.land (n_status n) STATUS_SERVE_STORAGE =? 0) else is_fishman pre c
-           | None => false end) ]
+           | None => false end);
+        (* a provider acting in its own name touches only reports recorded against itself *)
+        ("authz.recover_own", negb accepted || is_fishman pre c ||
+           forallb (fun kv => match faults pre !! kv.1 with
+                              | Some f0 => value_eqb (enc_fault f0) (enc_fault kv.2) || String.eqb (f_provider kv.2) c
+                              | None => String.eqb (f_provider kv.2) c end) (map_to_list (faults post))) ]
   | _ => []
   end.
